@@ -55,7 +55,7 @@ func init() {
 			"C11-R4 the loops that drive resolution do not depend on map order; C11-R5 entry points start every walk at depth 0 and hand the configured limit to the walk untransformed (a field or parameter read, no clamp, offset or substitute); " +
 			"C11-R3 the limit N the user gives (--maxdepth, HR_MAXDEPTH, configuration file) is the one stored for the resolver: it is overwritten from the flag only when the flag is set or nothing was configured, and a set flag always wins; C11-R6 if --maxdepth is ever declared on a command as well as on the application it is read through the context lineage, so the global flag and HR_MAXDEPTH still reach the resolver; " +
 			"C11-R7 the maximum-depth error made inside package resolver reaches the result of every function it passes through, up to the command (must-flow: on every path on which a call that can return it fails, the caller returns a non-nil error), so a book that is too deep or cyclic is never reported as success; " +
-			"C01-R4 (shared) merging keeps every ingredient of an expanded recipe whatever its amount, so how deep a later walk goes does not depend on values being zero. C11-R8 a command's configuration takes its resolver section from the loaded options (or an adjusted copy), never from a fresh default; C16-R3 (shared) the environment variable documented for the limit is the one the flag declares. C11-R2 also requires every iteration over the ingredients to descend to that ingredient, a cycle mark set under the walk's name to be cleared on every successful way out, and a walk with an explicit stack to guard with len(stack) >= limit.",
+			"C01-R4 (shared) merging keeps every ingredient of an expanded recipe whatever its amount, so how deep a later walk goes does not depend on values being zero. C11-R8 a command's configuration takes its resolver section from the loaded options (or an adjusted copy), never from a fresh default; C16-R3 (shared) the environment variable documented for the limit is the one the flag declares. C11-R2 also requires every iteration over the ingredients to descend to that ingredient, a cycle mark set under the walk's name to be cleared on every successful way out, and a walk with an explicit stack to guard with len(stack) >= limit. C11-R9 every recipe of the book is the start of a walk: the loops of package resolver that collect the names or start the walks reach the append or the call on every way through their body.",
 		NotDecided: "that the limit trips exactly when some chain has N or more references independently of the order of visits (recipes are flattened in place, so a later walk is shallower: defect D10 in DESIGN.md, out of reach for a necessary-condition rule); provenance of the default bound (C16-R5)",
 		Run: func(c *core.Ctx) {
 			ruleSettingTables(c, "C16-R3") // the limit documented for the environment is the one declared
